@@ -29,7 +29,7 @@ fn meta(ctx: &Ctx) -> Meta {
     Meta {
         level: "exploration",
         rule: format!(
-            "bounded-exhaustive destinations: every string of up to {} tokens over {:?} (release; one token fewer in verifdbg) is given to with_file + build: no panic, and a destination that does not start with '/' or './' or has no file name (component list empty or ending in '..') must be an error; capability strings (all strings up to 4 tokens of C19's alphabet) through FileOptions::caps; every compression type with levels 0..=25, 100, 2^31, u32::MAX (zstd: i32::MIN, -200..=30, i32::MAX) then build() with a small file - if Ok the payload must decompress independently and contain the file; metadata setters with NUL / newline / 64 KiB / odd strings, extreme epochs and modes, missing and directory sources. Release and verifdbg. distinct_nontrivial = distinct argument tuples executed",
+            "bounded-exhaustive destinations: every string of up to {} tokens over {:?} (release; one token fewer in verifdbg) is given to with_file + build: no panic, and a destination that does not start with '/' or './' or has no file name (component list empty or ending in '..') must be an error; capability strings (all strings up to 4 tokens of C19's alphabet) through FileOptions::caps; every compression type with levels 0..=25, 100, 2^31, u32::MAX (zstd: i32::MIN, -200..=30, i32::MAX) then build() with a small file - if Ok the payload must decompress independently and contain the file; metadata setters with NUL / newline / 64 KiB / odd strings, extreme epochs and modes, missing and directory sources. Release and verifdbg. Building with each compression type is repeated in builds of the library with three other cargo feature sets (none, gzip only, default): an error is fine, a panic is not. distinct_nontrivial = distinct argument tuples executed",
             max_tokens(ctx),
             TOKENS
         ),
@@ -301,6 +301,29 @@ fn run(ctx: &Ctx, rep: &Report) {
         rep.sample(json!({"destination": d, "model": format!("{:?}", dest_model(d)), "library": format!("{:?}", guard(|| new_builder().with_file(&src, FileOptions::new(d)).map(|_| "accepted").map_err(|e| e.to_string())).map_err(|p| format!("PANIC {}", p.message)))}));
     }
     let _ = std::fs::remove_dir_all(&dir);
+    feature_sets(ctx, rep);
+}
+
+/// building with every compression type in builds of the library that lack some or all of the
+/// optional compressors: an error is fine, a panic is not
+fn feature_sets(ctx: &Ctx, rep: &Report) {
+    for o in crate::util::probe::observations(ctx, rep) {
+        let kind = o.fields.first().map(|s| s.as_str()).unwrap_or("");
+        if !(kind == "build" || kind == "reread") || o.fields.len() < 3 {
+            continue;
+        }
+        rep.eval(1);
+        rep.nontrivial(hash_str(&format!("probe|{}|{}|{}", o.set, kind, o.fields[1])));
+        rep.count(&format!("feature_set_builds.{}.{}", o.set, o.fields[2].split(':').next().unwrap_or("")), 1);
+        if o.fields[2].starts_with("panic") {
+            rep.violation(
+                format!("panic:feature-set:{kind}:{}", o.fields[1]),
+                format!("built with feature set {}: {kind} with compression {} panics ({})", o.set, o.fields[1], o.fields[2]),
+                json!({"kind": "feature-probe", "set": o.set, "observation": o.fields.join(" ")}),
+                0,
+            );
+        }
+    }
 }
 
 fn replay(ctx: &Ctx, w: &serde_json::Value, rep: &Report) {
